@@ -31,7 +31,7 @@ for k in sorted(rows, key=skey):
 rp = os.path.join(HERE, 'seeded', 'RESULTS.json')
 if os.path.exists(rp):
     R = json.load(open(rp))
-    out += ['', '## 2. Independently written breaks (seeded/<ID>-<A|B>/, fresh sub-agents given only the property record)\n',
+    out += ['', '## 2. Independently written breaks (seeded/<ID>-<A..J>/, five rounds of fresh sub-agents given only the property record and what had been tried before)\n',
             'Columns: demo on clean tree / demo with patch (exit codes), baseline with patch, verdict of `bin/check <ID> --tier quick` on the patched copy.\n',
             '| seeded | files | needs to manifest (author) | demo clean/patched | baseline | check | mechanism key(s) |', '|---|---|---|---|---|---|---|']
     for n in sorted(R, key=lambda x: (x.split('-')[0], x.split('-')[1])):
@@ -40,7 +40,14 @@ if os.path.exists(rp):
         a = meta.get('claimed_by_author', {})
         last = r.get('thorough') or r.get('quick') or {}
         keys = '; '.join(re.sub(r' count=.*', '', k.replace('key=', '')) for k in last.get('keys', [])[:2])
+        verdict = last.get('verdict')
+        for k2, v2 in r.items():
+            if k2.startswith('also_') and v2.get('verdict') == 'CAUGHT' and verdict != 'CAUGHT':
+                verdict = f"{verdict}; CAUGHT by {k2[5:]}"
+                keys = '; '.join(re.sub(r' count=.*', '', k.replace('key=', '')) for k in v2.get('keys', [])[:2])
+        if meta.get('note') and verdict and verdict.startswith('MISSED'):
+            verdict += ' (see note in meta.json: ' + meta['note'][:120] + '...)'
         out.append(f"| {n} | {', '.join(a.get('files', []))[:60]} | {str(a.get('needs_to_manifest', ''))[:260]} | {r.get('demo_on_clean')}/{r.get('demo_with_patch')} | "
-                   f"{'ok' if r.get('baseline_passes') else 'BROKEN'} | {last.get('verdict')} ({'thorough' if r.get('thorough') else 'quick'}) | `{keys[:200]}` |")
+                   f"{'ok' if r.get('baseline_passes') else 'BROKEN'} | {verdict} ({'thorough' if r.get('thorough') else 'quick'}) | `{keys[:200]}` |")
 open(os.path.join(HERE, 'selftest', 'RESULTS.md'), 'w').write('\n'.join(out) + '\n')
 print('written', len(rows), 'mutants')
